@@ -66,6 +66,11 @@ ENTRY = {"greedy": E_GREEDY, "greedy_satprof": E_GREEDY, "maxwelfare": E_MAXW, "
          "priceable": E_RO, "project_loss": E_LOSS, "eff_support": E_EFFS, "eff_supports": E_EFFSS,
          "cohesive": E_RO, "validate_price": E_RO}
 SOLVER_CALLS = {"priceable"}
+# keys a caller may put into a parameter dictionary (Equal Shares / greedy) resp. into Phragmen's
+PKEYS = ["initial_budget_allocation", "resoluteness", "tie_breaking", "analytics", "sat_profile"]
+PPKEYS = ["initial_budget_allocation", "resoluteness", "tie_breaking"]
+WRAPPER_CALLS = ["increase", "increase", "increase_irr", "increase_phragmen", "completion", "completion_irr",
+                 "popularity", "swc", "eff_support", "eff_supports"]
 
 
 def budget(tier):
@@ -109,10 +114,34 @@ def gen(rng, i, tier):
         calls[rng.randrange(k)] = "priceable"
     if i % 7 == 0:
         calls[0] = rng.choice(["increase", "increase_irr", "increase_phragmen", "eff_support", "eff_supports"])
+    # parameter dictionaries that carry keys colliding with the wrapper's own arguments / with what the wrapper
+    # writes into its copy, in every combination with the explicit argument given or left to None
+    def keyset(universe, collide=0.4):
+        # `collide`: probability of the two keys that completion / the comparisons pass themselves (a collision makes
+        # the rule call raise TypeError, which is legitimate but exercises little code)
+        if rng.random() < 0.35:
+            return []
+        return sorted(k_ for k_ in universe
+                      if rng.random() < (collide if k_ in ("initial_budget_allocation", "resoluteness") else 0.4))
+
+    pkeys = keyset(PKEYS)
+    if i % 3 == 0 and "initial_budget_allocation" not in pkeys:
+        pkeys = sorted(pkeys + ["initial_budget_allocation"])
+    if i % 3 == 0:
+        calls[rng.randrange(k)] = rng.choice(WRAPPER_CALLS)
+    pinit = []
+    c = Fraction(0)
+    for p in rng.sample(range(m), min(m, rng.randrange(0, 3))):
+        if c + costs[p] <= B:
+            pinit.append(p)
+            c += costs[p]
     return {"costs": [pb.qs(c) for c in costs], "budget": pb.qs(B), "ballots": ballots,
             "multi": rng.random() < 0.4, "init": sorted(init), "alloc": sorted(alloc),
             "sat": rng.choice(["cost", "card"]), "calls": calls,
             "step": pb.qs(rng.choice([Fraction(1), Fraction(1, 2), B / 4])),
+            "pkeys": pkeys, "plkeys": [keyset(PKEYS, 0.12), keyset(PKEYS, 0.12)], "ppkeys": keyset(PPKEYS),
+            "pinit": sorted(pinit), "pres": rng.random() < 0.5, "panalytics": rng.random() < 0.5,
+            "explicit_init": rng.random() < 0.5, "explicit_res": rng.choice([None, None, True, False]),
             "solver": any(c in SOLVER_CALLS for c in calls)}
 
 
@@ -208,14 +237,37 @@ def build(case):
     sat = _sat(case["sat"])
     satprof = prof.as_sat_profile(sat)
     init = [projs[j] for j in case["init"]]
-    params = {"sat_class": sat}
+    from pabutools.tiebreaking import lexico_tie_breaking
+
+    def mk(keys):
+        d = {"sat_class": sat}
+        for k_ in keys:
+            if k_ == "initial_budget_allocation":
+                d[k_] = [projs[j] for j in case.get("pinit", [])]
+            elif k_ == "resoluteness":
+                d[k_] = bool(case.get("pres", True))
+            elif k_ == "tie_breaking":
+                d[k_] = lexico_tie_breaking
+            elif k_ == "analytics":
+                d[k_] = bool(case.get("panalytics", False))
+            elif k_ == "sat_profile":
+                d.pop("sat_class", None)
+                d[k_] = satprof
+            elif k_ == "skipped_project":
+                d[k_] = None
+        return d
+
+    params = mk(case.get("pkeys", []))
     alloc = [projs[j] for j in case["alloc"]]
-    params_list = [{"sat_class": sat}, {"sat_class": sat}]
+    plk = case.get("plkeys", [[], []])
+    params_list = [mk(plk[0]), mk(plk[1])]
+    pparams = mk(case.get("ppkeys", []))
+    pparams.pop("sat_class", None)
     return {"inst": inst, "projs": projs, "prof": prof, "satprof": satprof, "init": init, "params": params,
-            "alloc": alloc, "params_list": params_list, "sat": sat}
+            "alloc": alloc, "params_list": params_list, "pparams": pparams, "sat": sat}
 
 
-SHARED = ["inst", "prof", "satprof", "init", "params", "alloc", "params_list"]
+SHARED = ["inst", "prof", "satprof", "init", "params", "alloc", "params_list", "pparams"]
 
 
 def ans(x):
@@ -262,49 +314,59 @@ def do_call(name, o, case):
     inst, prof, satprof, init, params, alloc, plist, sat = (o["inst"], o["prof"], o["satprof"], o["init"], o["params"],
                                                             o["alloc"], o["params_list"], o["sat"])
     step = pb.num(case["step"])
+    pparams = o["pparams"]
+    xi = init if case.get("explicit_init", True) else None        # explicit initial_budget_allocation or None
+    xr = {} if case.get("explicit_res") is None else {"resoluteness": bool(case["explicit_res"])}
+
+    def direct(rule, prm, **explicit):
+        # a direct call of a rule with the caller's dictionary: rule(inst, prof, **prm) -- explicit keyword
+        # arguments are only added where the dictionary does not carry the key itself
+        kw = {k_: v for k_, v in explicit.items() if k_ not in prm}
+        return rule(inst, prof, **kw, **prm)
+
     if name == "greedy":
-        return greedy_utilitarian_welfare(inst, prof, initial_budget_allocation=init, **params)
+        return direct(greedy_utilitarian_welfare, params, initial_budget_allocation=init)
     if name == "greedy_satprof":
         return greedy_utilitarian_welfare(inst, prof, sat_profile=satprof, is_sat_additive=True,
                                           initial_budget_allocation=init)
     if name == "maxwelfare":
-        return max_additive_utilitarian_welfare(inst, prof, initial_budget_allocation=init,
-                                                inner_algo=MaxAddUtilWelfareAlgo.PRIMAL_DUAL, **params)
+        return direct(max_additive_utilitarian_welfare, params, initial_budget_allocation=init,
+                      inner_algo=MaxAddUtilWelfareAlgo.PRIMAL_DUAL)
     if name == "mes":
-        return method_of_equal_shares(inst, prof, initial_budget_allocation=init, **params)
+        return direct(method_of_equal_shares, params, initial_budget_allocation=init)
     if name == "mes_satprof":
         return method_of_equal_shares(inst, prof, sat_profile=satprof, initial_budget_allocation=init)
     if name == "mes_irr":
-        return method_of_equal_shares(inst, prof, initial_budget_allocation=init, resoluteness=False, **params)
+        return direct(method_of_equal_shares, params, initial_budget_allocation=init, resoluteness=False)
     if name == "mes_iter":
         return method_of_equal_shares(inst, prof, sat_profile=satprof, initial_budget_allocation=init,
                                       voter_budget_increment=step)
     if name == "phragmen":
-        return sequential_phragmen(inst, prof, initial_budget_allocation=init)
+        return direct(sequential_phragmen, pparams, initial_budget_allocation=init)
     if name == "phragmen_irr":
-        return sequential_phragmen(inst, prof, initial_budget_allocation=init, resoluteness=False)
+        return direct(sequential_phragmen, pparams, initial_budget_allocation=init, resoluteness=False)
     if name == "completion":
         return completion_by_rule_combination(inst, prof, [method_of_equal_shares, greedy_utilitarian_welfare], plist,
-                                              initial_budget_allocation=init)
+                                              initial_budget_allocation=xi, **xr)
     if name == "completion_irr":
         return completion_by_rule_combination(inst, prof, [method_of_equal_shares, greedy_utilitarian_welfare], plist,
-                                              initial_budget_allocation=init, resoluteness=False)
+                                              initial_budget_allocation=xi, resoluteness=False)
     if name == "increase":
-        return exhaustion_by_budget_increase(inst, prof, method_of_equal_shares, params, initial_budget_allocation=init,
-                                             budget_step=step)
+        return exhaustion_by_budget_increase(inst, prof, method_of_equal_shares, params, initial_budget_allocation=xi,
+                                             budget_step=step, **xr)
     if name == "increase_irr":
-        return exhaustion_by_budget_increase(inst, prof, method_of_equal_shares, params, initial_budget_allocation=init,
+        return exhaustion_by_budget_increase(inst, prof, method_of_equal_shares, params, initial_budget_allocation=xi,
                                              budget_step=step, resoluteness=False)
     if name == "increase_phragmen":
-        return exhaustion_by_budget_increase(inst, prof, sequential_phragmen, {}, initial_budget_allocation=init,
+        return exhaustion_by_budget_increase(inst, prof, sequential_phragmen, pparams, initial_budget_allocation=xi,
                                              budget_step=step, exhaustive_stop=False,
-                                             budget_bound=inst.budget_limit + 3 * step)
+                                             budget_bound=inst.budget_limit + 3 * step, **xr)
     if name == "popularity":
         return popularity_comparison(inst, prof, sat, [method_of_equal_shares, greedy_utilitarian_welfare], plist,
-                                     initial_budget_allocation=init)
+                                     initial_budget_allocation=xi)
     if name == "swc":
         return social_welfare_comparison(inst, prof, sat, [method_of_equal_shares, greedy_utilitarian_welfare], plist,
-                                         initial_budget_allocation=init)
+                                         initial_budget_allocation=xi)
     if name == "satprofile":
         sp = prof.as_sat_profile(sat)
         return [sp.total_satisfaction(alloc), [s.sat(alloc) for s in sp], len(sp)]
@@ -335,7 +397,10 @@ def do_call(name, o, case):
         pay = [{p: 0 for p in inst} for b in prof]
         return an.validate_price_system(inst, prof, alloc, pb.num(pb.F(case["budget"]) / nv), pay)
     if name == "project_loss":
-        det = method_of_equal_shares(inst, prof, analytics=True, **params).details
+        kw = dict(params)
+        kw.update({"analytics": True, "resoluteness": True})
+        kw.pop("skipped_project", None)
+        det = method_of_equal_shares(inst, prof, **kw).details
         before = snapshot(det)
         r = an.calculate_project_loss(det)
         return [[(str(x.name), x.supporters_budget if hasattr(x, "supporters_budget") else None,
